@@ -33,7 +33,7 @@ def run_c01(tier, seed, res):
                      "type_scorer_automaton(Wt>3)", "models_with_tag_models",
                      "cases_with_weight_vectors_longer_than_8", "cases_with_weight_vectors_up_to_8",
                      "matched_chars_2_bytes", "matched_chars_3_bytes", "matched_chars_4_bytes", "window_ge_9",
-                     "texts_longer_than_65535"],
+                     "texts_longer_than_65535", "sentences_predicted_twice_in_a_row"],
     }
 
 
@@ -88,7 +88,7 @@ def run_c02(tier, seed, res):
         "required": ["vectors_with_2+_consecutive_skipped_segments", "vectors_with_skipped_first_segment",
                      "vectors_with_skipped_final_segment", "vectors_without_unknown", "exhaustive_label_vectors",
                      "sentences_via_from_raw+boundaries_mut", "sentences_via_predict_then_boundaries_mut",
-                     "sentences_via_from_partial_annotation"],
+                     "sentences_via_from_partial_annotation", "sentences_via_update_raw_after_text_of_same_shape"],
         "exhaustive": True,
         "extra": {"exhaustive_scope": "all 3^(n-1) label vectors for n = 1..%d (the random part is sampled)" % nmax},
     }
@@ -187,7 +187,7 @@ def run_c07(tier, seed, res):
                 "distinct = distinct model byte strings",
         "required": ["prefixes_tried", "prefixes_shorter_than_header", "io_fault_points_tried", "header_mutations_tried",
                      "models_with_tag_models", "models_fully_enumerated", "shipped_model_checked", "large_model_round_trips",
-                     "model_round_trips_in_reduced_feature_builds"],
+                     "model_round_trips_in_reduced_feature_builds", "models_with_repeated_dictionary_word"],
         "exhaustive": True,
         "extra": {"exhaustive_scope": "per fully enumerated model: all proper prefixes, all reader/writer fault positions, all 25x255 header byte changes"},
     }
@@ -227,7 +227,8 @@ def run_c15(tier, seed, res):
                 "random rules); after filter: text, types, tag count, every boundary and every tag compared with the reference rule "
                 "(grapheme clusters from unicode-segmentation over the whole string); filter applied twice == once; distinct = distinct sentences",
         "required": ["sentences_with_multi_char_grapheme_cluster", "sentences_with_cr_or_lf", "sentences_with_unknown_boundary",
-                     "sentences_with_tags", "single_character_sentences",
+                     "sentences_with_tags", "single_character_sentences", "sentences_with_cluster_longer_than_64_bytes",
+                     "sentences_with_more_than_32_tag_columns",
                      "filter_changed_something:ConcatGraphemeClustersFilter", "filter_changed_something:SplitLinebreaksFilter",
                      "filter_changed_something:PatternMatchTagger"] +
                     ["filter_changed_something:KyteaWsConstFilter(%s)" % t for t in "DRHTKO"],
@@ -247,7 +248,7 @@ def run_c09(tier, seed, res):
         "required": ["configs_with_char_window_gt_type_window", "configs_with_type_window_gt_char_window",
                      "configs_with_word_longer_than_bucket", "trained_char_ngrams", "trained_type_ngrams",
                      "trained_dict_words_with_nonzero_weight", "boundaries_scored_with_nonzero_feature_weight",
-                     "configs_with_window_0"] + ["solver_%d" % i for i in range(8)],
+                     "configs_with_window_0", "configs_with_window_of_8_or_more"] + ["solver_%d" % i for i in range(8)],
     }
 
 
@@ -338,7 +339,8 @@ def run_c19(tier, seed, res):
         "required": ["boundaries_touched_by_old_dictionary", "boundaries_touched_by_new_dictionary", "edits_to_empty_dictionary",
                      "edits_from_empty_dictionary", "words_with_comma_quote_or_newline", "weights_outside_16_bit",
                      "non_empty_comments", "dictionaries_empty", "corrupted_csv_runs", "new_dictionaries_with_repeated_record",
-                     "dictionaries_with_repeated_record", "new_dictionaries_with_word_of_8_or_more_chars"],
+                     "dictionaries_with_repeated_record", "new_dictionaries_with_word_of_8_or_more_chars",
+                     "runs_with_dump_and_replace_together"],
     }
 
 
@@ -356,7 +358,8 @@ def run_c20(tier, seed, res):
                 "modes are compared with each other on text the normaliser leaves unchanged; distinct = distinct (model, input)",
         "required": ["streams_with_empty_first_line", "streams_with_rejected_line", "models_with_tag_models",
                      "lines_checked_by_reference_parser", "evaluate_char_runs_compared", "evaluate_word_runs_compared",
-                     "mode_equivalence_pairs_compared", "references_with_normaliser_keys_sprinkled"] + ["predict_runs_flags_%s" % format(m, "04b") for m in range(16)],
+                     "mode_equivalence_pairs_compared", "references_with_normaliser_keys_sprinkled",
+                     "references_repeated_as_width_variant"] + ["predict_runs_flags_%s" % format(m, "04b") for m in range(16)],
     }
 
 
